@@ -6,6 +6,7 @@
 
 /// The store isolation leg of C13 (same source file): C05's chain ends in the store, and what was
 /// handed over comes back at restart only if the store keeps the items of a plane apart.
+mod late;
 #[path = "../../c13/src/wide.rs"]
 mod wide;
 
@@ -115,6 +116,12 @@ fn main() {
     let ctx = Ctx::from_env("C05");
     set_checker(check_c05);
     if let Some(r) = ctx.replay_request() {
+        if r["leg"].as_str() == Some("wt-late-lane") {
+            for (sig, det) in late::replay(&r["detail"]) {
+                ctx.violation("replay", &sig, det);
+            }
+            ctx.finish("fault_enumeration", "replay");
+        }
         if r["detail"]["kind"].as_str() == Some("wide") {
             wide::replay(&ctx, &r["detail"], &ctx.root);
             ctx.finish("fault_enumeration", "replay");
@@ -125,6 +132,7 @@ fn main() {
     let quick = ctx.quick();
     if !vcommon::sched::is_worker() {
         wide::run_leg_sized(&ctx, &ctx.root, "store-keeps-items-apart", if quick { 1_100 } else { 66_000 });
+        late::run(&ctx);
     }
     let sc = scripts();
     let grid: Vec<(usize, usize, Mode)> = if quick { vec![(8, 2, Mode::Eager), (4096, 64, Mode::Burst), (17, 64, Mode::Burst), (17, 2, Mode::Eager)] } else { vec![(8, 2, Mode::Eager), (8, 64, Mode::SlowRead), (4096, 64, Mode::Burst), (48, 3, Mode::Eager), (17, 64, Mode::Burst), (17, 2, Mode::Eager), (17, 3, Mode::SlowRead)] };
